@@ -2,6 +2,7 @@ package kernel
 
 import (
 	"syscall"
+	"time"
 	"unsafe"
 )
 
@@ -46,4 +47,23 @@ func waitWord(addr *uint32) {
 func signalWord(addr *uint32) {
 	storeWord(addr, 1)
 	futexWake(addr)
+}
+
+// waitWordFor is waitWord with a real-time limit; it reports whether the word
+// was signalled. Used only to notice a task that is blocked on a real lock
+// inside the code under test (see Sched.awaitArrival).
+//
+//go:norace
+func waitWordFor(addr *uint32, d time.Duration) bool {
+	deadline := time.Now().Add(d)
+	for loadWord(addr) == 0 {
+		left := time.Until(deadline)
+		if left <= 0 {
+			return false
+		}
+		ts := syscall.NsecToTimespec(int64(left))
+		syscall.Syscall6(syscall.SYS_FUTEX, uintptr(unsafe.Pointer(addr)), futexWaitOp, 0, uintptr(unsafe.Pointer(&ts)), 0, 0)
+	}
+	storeWord(addr, 0)
+	return true
 }
